@@ -15,6 +15,7 @@ struct Case {
     int flags = 0;        // bit0 LAZY, bit1 DETACHED
     int wait_all = 1;
     int spurious = 0;     // percent of scheduling points that try a spurious wake-up
+    int prior = -1;       // >= 0: flags of a one-thread pool that lives (one task, free with wait_all) in the same process before the pool under test
     std::vector<std::vector<int>> subs; // per submitter: op codes
     std::vector<int> main_ops;          // ops by the freeing thread before free (1 length, 2 clear, 0 add)
     std::vector<unsigned char> choices;
@@ -22,7 +23,7 @@ struct Case {
 
 static std::string to_text(const Case &c) {
     std::ostringstream o;
-    o << "pool1\nthreads " << c.threads << "\nflags " << c.flags << "\nwait_all " << c.wait_all << "\nspurious " << c.spurious << "\n";
+    o << "pool1\nthreads " << c.threads << "\nflags " << c.flags << "\nwait_all " << c.wait_all << "\nspurious " << c.spurious << "\n"; if (c.prior >= 0) o << "prior " << c.prior << "\n";
     for (auto &s : c.subs) { o << "op sub"; for (int x : s) o << " " << x; o << "\n"; }
     o << "op main"; for (int x : c.main_ops) o << " " << x; o << "\n";
     o << "op choices"; for (unsigned char x : c.choices) o << " " << (int)x; o << "\n";
@@ -32,7 +33,7 @@ static bool from_text(const std::string &s, Case &c) {
     cio::Text t;
     if (!cio::parse(s, t) || t.magic != "pool1") return false;
     c = Case();
-    c.threads = cio::hdr_long(t, "threads", 2); c.flags = cio::hdr_long(t, "flags", 0); c.wait_all = cio::hdr_long(t, "wait_all", 1); c.spurious = cio::hdr_long(t, "spurious", 0);
+    c.threads = cio::hdr_long(t, "threads", 2); c.flags = cio::hdr_long(t, "flags", 0); c.wait_all = cio::hdr_long(t, "wait_all", 1); c.spurious = cio::hdr_long(t, "spurious", 0); c.prior = cio::hdr_long(t, "prior", -1);
     for (auto &o : t.ops) {
         if (o.first == "sub") { std::vector<int> v(o.second.begin(), o.second.end()); c.subs.push_back(v); }
         else if (o.first == "main") c.main_ops.assign(o.second.begin(), o.second.end());
@@ -93,6 +94,8 @@ static void do_sub_ops(const std::vector<std::pair<int, int>> &ops) {
     }
 }
 static void *submitter(void *p) { do_sub_ops(((SubArg *)p)->ops); return nullptr; }
+static int warm_runs;
+static void *warm_task(void *arg) { (void)arg; sched::yield_point("wb"); warm_runs++; sched::yield_point("we"); return nullptr; }
 
 static void finish(const char *stuck) {
     sched::Result &R = sched::result();
@@ -104,7 +107,7 @@ static void finish(const char *stuck) {
     }
     if (!v.ok) v.message += "\n--- schedule ---\n" + R.trace.substr(0, 1500);
     v.nontrivial = R.preemptions > 0;
-    v.classes.push_back("flags=" + std::to_string(g_case->flags));
+    v.classes.push_back("flags=" + std::to_string(g_case->flags)); if (g_case->prior >= 0) v.classes.push_back("earlier-pool-flags=" + std::to_string(g_case->prior));
     v.classes.push_back(g_case->wait_all ? "wait_all" : "wait_curr");
     if (R.spurious) v.classes.push_back("spurious-wakeup");
     if (R.preemptions) v.classes.push_back("preempted");
@@ -129,6 +132,18 @@ static rt::Verdict run_case(const Case &c, const rt::Args &) {
     for (int code : c.main_ops) { int id = -1; if (code == 0 && ncells < 60) id = ncells++; if (code != 0 || id >= 0) main_ops.push_back({code, id}); }
 
     sched::start(c.choices, c.spurious);
+    int warm_workers = 0;
+    if (c.prior >= 0) {
+        // an earlier pool of another flavour in the same process: pools must not share state (what it leaves behind must not leak into the next one)
+        warm_runs = 0;
+        int pf = ((c.prior & 1) ? M_THPOOL_LAZY : 0) | ((c.prior & 2) ? M_THPOOL_DETACHED : 0);
+        m_thpool_t *wp = m_thpool_new(1, (m_thpool_flags)pf);
+        if (!wp || m_thpool_add(wp, warm_task, nullptr) != 0) { g_v.fail("C06.8", "could not set up the earlier pool"); finish(nullptr); }
+        int wr = m_thpool_free(&wp, true);
+        if (wr != 0 || wp) g_v.fail("C06.8", "m_thpool_free of the earlier pool returned " + std::to_string(wr));
+        if (warm_runs != 1) g_v.fail("C06.3", "m_thpool_free(wait_all=true) of the earlier pool returned although its task had run " + std::to_string(warm_runs) + " times");
+        warm_workers = sched::result().workers_created;
+    }
     int fl = ((c.flags & 1) ? M_THPOOL_LAZY : 0) | ((c.flags & 2) ? M_THPOOL_DETACHED : 0);
     pool = m_thpool_new((uint8_t)c.threads, (m_thpool_flags)fl);
     if (!pool) { g_v.fail("C06.8", "m_thpool_new returned NULL"); finish(nullptr); }
@@ -140,7 +155,7 @@ static rt::Verdict run_case(const Case &c, const rt::Args &) {
     free_returned = true;
     for (int i = 0; i < ncells; i++) { begun_at_free[i] = cells[i].begun; ended_at_free[i] = cells[i].ended; }
     if (r != 0 || pool) g_v.fail("C06.8", "m_thpool_free returned " + std::to_string(r) + " or left the handle set");
-    if (sched::result().workers_created > c.threads) g_v.fail("C06.2", std::to_string(sched::result().workers_created) + " worker threads created for a pool of " + std::to_string(c.threads));
+    if (sched::result().workers_created - warm_workers > c.threads) g_v.fail("C06.2", std::to_string(sched::result().workers_created - warm_workers) + " worker threads created for a pool of " + std::to_string(c.threads));
     for (int i = 0; i < ncells && g_v.ok; i++) {
         if (!cells[i].accepted) continue;
         if (c.wait_all) {
@@ -166,11 +181,11 @@ static rt::Verdict run_case(const Case &c, const rt::Args &) {
 static rc::Gen<Case> gen_case(const rt::Args &) {
     using namespace rc;
     auto subops = gens::vec<int>(0, 4, gens::weighted_values<int>({{8, 0}, {1, 1}, {1, 2}}));
-    return gen::map(gen::tuple(gens::range(1, 5), gens::range(0, 4), gens::range(0, 2), gens::weighted_values<int>({{3, 0}, {2, 5}, {1, 20}}),
+    return gen::map(gen::tuple(gens::range(1, 5), gen::map(gen::pair(gens::range(0, 4), gens::weighted_values<int>({{6, -1}, {1, 0}, {1, 1}, {2, 2}, {1, 3}})), [](std::pair<int, int> p) { return p.first + 8 * (p.second + 1); }), gens::range(0, 2), gens::weighted_values<int>({{3, 0}, {2, 5}, {1, 20}}),
                                gens::vec<std::vector<int>>(1, 3, subops), gens::vec<int>(0, 2, gens::weighted_values<int>({{3, 0}, {1, 1}, {1, 2}})),
                                gen::resize(100, gen::container<std::vector<unsigned char>>(gen::arbitrary<unsigned char>()))),
                     [](std::tuple<int, int, int, int, std::vector<std::vector<int>>, std::vector<int>, std::vector<unsigned char>> t) {
-                        Case c; c.threads = std::get<0>(t); c.flags = std::get<1>(t); c.wait_all = std::get<2>(t); c.spurious = std::get<3>(t);
+                        Case c; c.threads = std::get<0>(t); c.flags = std::get<1>(t) % 8; c.prior = std::get<1>(t) / 8 - 1; c.wait_all = std::get<2>(t); c.spurious = std::get<3>(t);
                         c.subs = std::get<4>(t); c.main_ops = std::get<5>(t); c.choices = std::get<6>(t);
                         if (c.choices.size() > 300) c.choices.resize(300);
                         return c;
